@@ -29,7 +29,7 @@ ASSUMPTIONS = [
     "'no failure from a fix-capable rule' is taken from a solo reference scan of the same document with the same configuration; the set of fix-capable rules is read from `plugins list --all`",
     "probe-only fix runs are checked against a hand-verifiable model of the probe's two fixes",
 ]
-PROBES = ["readonly_op_with_fault", "fix_changed_some", "fix_changed_none", "fix_token_fix_probe", "fix_line_fix_probe", "readonly_after_logfile", "stdin_scan", "api_fix_string", "list_files", "fix_multi_level"]
+PROBES = ["fix_op_with_fault", "readonly_op_with_fault", "fix_changed_some", "fix_changed_none", "fix_token_fix_probe", "fix_line_fix_probe", "readonly_after_logfile", "stdin_scan", "api_fix_string", "list_files", "fix_multi_level"]
 
 READONLY_KINDS = ["scan", "scan", "scan-stdin", "list", "api-scan_path", "api-scan_string", "api-list_path", "sub-plugins", "sub-extensions", "sub-version"]
 FIX_KINDS = ["fix", "fix", "fix", "api-fix_path", "api-fix_string"]
@@ -143,6 +143,13 @@ def generate(rng, tier, index):
         if logfile_first and k > 0 and op["rt"]["kind"] == "cli" and rng.random() < 0.7:
             # later invocation logs, but names no log file of its own
             op["rt"]["argv"] = ["--log-level", rng.choice(["DEBUG", "INFO"])] + op["rt"]["argv"]
+        if kind == "fix" and not probe_only and rng.random() < 0.3:
+            # a contained rule/parser fault in one file of a fix run (any pass): what is
+            # announced as Fixed must still be exactly what changed
+            op["want_fault"] = [rng.random(), rng.choice(["raise", "raise_after", "badtok"]), rng.choice(["RuntimeError", "IndexError"])]
+            if "--continue-on-error" not in op["rt"]["argv"] and rng.random() < 0.7:
+                op["rt"]["argv"] = ["--continue-on-error"] + op["rt"]["argv"]
+                op["flags"] = ["--continue-on-error"] + op["flags"]
         if kind in ("scan", "scan-stdin", "api-scan_string", "api-scan_path") and rng.random() < 0.3:
             # a contained rule/parser fault inside a read-only operation: it must
             # still leave nothing behind
@@ -280,6 +287,16 @@ def evaluate(sc):
             if kind == "fix":
                 announced = sorted(view.fixed)
                 error = bool(view.exc) or view.exit not in (0, 3) or bool(view.err0) or any(m in view.stderr for m in ("Error", "encountered"))
+                if op.get("want_fault") and not view.exc:
+                    stats["fix_op_with_fault"] += 1
+                    if changed != announced:
+                        out.append(
+                            violation(
+                                "C10/fixed-announcement",
+                                "C10/fixed-announcement|fix-under-fault|%s" % ("changed-not-announced" if set(changed) - set(announced) else "announced-not-changed"),
+                                {"op_index": index, "changed": changed, "announced": announced, "stderr": view.stderr[-300:], "labels": op["labels"]},
+                            )
+                        )
             elif kind == "api-fix_path":
                 announced = sorted((api or {}).get("files_fixed", [])) if api and api.get("type") == "fix" else []
                 error = not api or api.get("type") != "fix"
